@@ -790,7 +790,7 @@ theorem Reader.open_xml_spec (file : Bytes) (xo : XmlOracle) (fp : FloatParse) (
       rd.exts = extensionsFromDocument doc := by
   unfold Reader.open at h
   simp only [Option.bind_eq_bind, Option.bind_eq_some_iff, Option.pure_def, Option.some.injEq] at h
-  obtain ⟨header, _, pr, _, ⟨pr1, xml⟩, _, doc, hd, root, hr, pcs, hp, imgs, hi, e⟩ := h
+  obtain ⟨header, _, pr, _, pr0, _, ⟨pr1, xml⟩, _, doc, hd, root, hr, pcs, hp, imgs, hi, e⟩ := h
   subst e
   exact ⟨doc, hd, hr, hp, hi, rfl⟩
 
@@ -810,7 +810,11 @@ theorem Reader_open_foreign (file : Bytes) (fp : FloatParse) (xo xo' : XmlOracle
     simp only [Option.bind_eq_bind, Option.bind_some]
     cases (PR.new ⟨file, 48⟩ header.pageSize).toOption with
     | none => rfl
-    | some pr =>
+    | some pr0 =>
+      simp only [Option.bind_some]
+      cases checkHeaderPage pr0 with
+      | none => rfl
+      | some pr =>
       simp only [Option.bind_some]
       cases extractXml pr header.xmlOffset header.xmlLength with
       | none => rfl
